@@ -22,8 +22,8 @@ PARALLEL = 14
 
 
 def floors(tier):
-    k = 1 if tier == "quick" else 4
-    return {"subsets": 25 * k, "types_required_usable": 300 * k, "types_absent_confirmed": 200 * k, "kept_rpc_calls": 100 * k, "internal_cases": 8 * k,
+    k = 1 if tier == "quick" else 3
+    return {"subsets": 25 * k, "types_required_usable": 300 * k, "types_absent_confirmed": 150 * k, "kept_rpc_calls": 100 * k, "internal_cases": 8 * k,
             "rejections_checked": 3, "emptied_service_cases": 5 * k}
 
 
